@@ -38,6 +38,8 @@ def build(kind, sample):
             from inference.pdf.unimodal import UnimodalPdf
             return UnimodalPdf(sample)
         from inference.pdf.kde import GaussianKDE
+        if kind == "kde_cv_sub":
+            return GaussianKDE(sample, cross_validation=True, max_cv_samples=100)      # cross-validation on a sub-sample
         return GaussianKDE(sample, cross_validation=(kind == "kde_cv"))
 
 
@@ -116,12 +118,12 @@ def tabulate(est, kind, sample, rng):
 # tree: interval(0.3) ends 0.17 std apart for the skewed shapes).  That non-uniqueness is outside what a specification can decide, so
 # for UnimodalPdf the bands are wide: they still separate it by orders of magnitude from the defect the property speaks of (read-outs
 # that lose all accuracy far from zero: mean -180 instead of 3).
-COV_TOL = {"kde_cv": {"mean": 2e-3, "var": 2e-2, "skew": 2e-2, "kurt": 6e-2, "ends": 2e-2, "p_mode": 2e-2},
+COV_TOL = {"kde_cv_sub": {}, "kde_cv": {"mean": 2e-3, "var": 2e-2, "skew": 2e-2, "kurt": 6e-2, "ends": 2e-2, "p_mode": 2e-2},
            "kde": {"mean": 2e-3, "var": 5e-3, "skew": 1e-2, "kurt": 3e-2, "ends": 5e-3, "p_mode": 3e-3},
            "unimodal": {"mean": 0.1, "var": 0.15, "skew": 0.3, "kurt": 1.0, "ends": 0.3, "p_mode": 0.1}}
 
 
-def run_part(ck, tier, kinds=("unimodal", "kde", "kde_cv")):
+def run_part(ck, tier, kinds=("unimodal", "kde", "kde_cv", "kde_cv_sub")):
     r = run_tlc("MC_PdfFamily", cfg_text='INIT Init\nNEXT Next\nCONSTANT Tier = "%s"\nCHECK_DEADLOCK FALSE\n' % tier, timeout=600)
     must_pass(r, "MC_PdfFamily")
     ck.tlc(r, "pdf_family")
@@ -135,7 +137,7 @@ def run_part(ck, tier, kinds=("unimodal", "kde", "kde_cv")):
         a = 10.0 ** d["alog10"]
         z = quantile_sample(d["shape"], d["n"])
         sample = a * z + a * d["bsd"]
-        ident = {"estimator": {"unimodal": "UnimodalPdf", "kde": "GaussianKDE", "kde_cv": "GaussianKDE(cross_validation=True)"}[d["kind"]], "shape": d["shape"], "n": d["n"], "a": a,
+        ident = {"estimator": {"unimodal": "UnimodalPdf", "kde": "GaussianKDE", "kde_cv": "GaussianKDE(cross_validation=True)", "kde_cv_sub": "GaussianKDE(cross_validation=True, max_cv_samples=100)"}[d["kind"]], "shape": d["shape"], "n": d["n"], "a": a,
                  "b_in_std": d["bsd"], "sample": "a * standardised quantile sample (fixed permutation) + a * b_in_std"}
         cname = ident["estimator"]
         ck.case((d["kind"], d["shape"], d["n"], d["alog10"], d["bsd"]))
